@@ -596,6 +596,8 @@ pub fn resize_target(n: u16) -> usize {
         65535 => usize::MAX,
         65534 => usize::MAX / 2,
         65533 => 1usize << 32,
+        // 2^32 + a few: arithmetic truncated to 32 bits sees "0 .. 4 free slots"
+        65528..=65532 => (1usize << 32) + (n as usize - 65528),
         n => n as usize,
     }
 }
